@@ -12,6 +12,23 @@ Tie:    three-way correspondence on real tables: the public staged join (dirty r
         sets with and without RESOURCE_USAGE and ENERGY_DELAY_PRODUCT; the progress messages of the joiner are parsed to record
         which acceleration paths ran (dirty pruning, thresholder built, dirty round failed, memory untracked, oversubscription
         retry).
+
+NOTE (found while building this check, recorded in the evidence under `assumptions`): the relaxed-capacity rounds of
+multi_strategy_join are dead code at mapper level on the current tree.  `excess_resource_tolerance` is set on the input
+PmappingDataframes, but every derived frame is created through PmappingDataframe.update() / the constructor call inside merge_next,
+neither of which passes it on (default 0).  prune_with_tolerance, filter_rows, copy and every merge therefore produce frames with
+tolerance 0: limit_capacity never lets a row above 1.0 survive a merge, `joined` never has a reservation column with max > 1, and
+the first round (tolerance 0.2) is always accepted — with an exact result, because the last join_strategy_2 round is exact.
+Consequences: (a) the "Oversubscribed … Reducing threshold" retry can not be reached through the public join (branch counter
+`oversubscribed-retry` stays 0; it is kept so that a future change that revives the path is exercised and judged);
+(b) the abstract model's witness AFV.C14.staged_counterexample (a reservation column retained after a relaxed round keeps
+objective-dominated rows) is not reproducible through join_pmappings today — it is reproducible on the PmappingDataframe class in
+isolation (see the comment in AFV/Props/C14.lean).  Should it become reachable, the failing case is classified with the suffix
+`+reservation-column-retained`.
+A genuine violation that IS reachable: the final make_pareto inherits fast_pareto_mask's float32 row-sum tie (C11
+`sum-key-not-strict`); with ≥ 3 varying compared columns (e.g. ENERGY, LATENCY, one reservation column under RESOURCE_USAGE) a
+dominated row is returned by the staged and by the exact join alike: key `dominated-row-returned:float32-row-sum-tie`
+(known_findings.jsonl; replayed from corpus/C14/float32-row-sum-tie.json on every run).
 """
 from __future__ import annotations
 
